@@ -63,7 +63,8 @@ PROPS = {
     ),
     "C20": dict(
         module="Prom.Props.C20",
-        areas=[dict(area="macro", quick=1500, thorough=60000)],
+        areas=[dict(area="macro", quick=1500, thorough=60000),
+               dict(area="creg", quick=500, thorough=20000, classes=["registry-not-linearizable", "admission-wrong", "stuck", "harness-panic"])],
         rule="case = one real call site of a public macro form (44 register_* forms, opts! with 0/1/2 label maps, histogram_opts! with 2/3/4 arguments, labels!) x with/without trailing comma, with run-time generated arguments "
              "(names, help incl. empty, two const-label maps sharing keys, 0-2 label names, bucket lists incl. empty / with +Inf / unordered, a plain or a prefixed+labelled registry); the created metric is compared with the explicit constructor call, "
              "its registry membership is probed in the named and in the default registry; non-trivial = the call site returns Ok; distinct by request text",
@@ -147,7 +148,8 @@ PROPS = {
         module="Prom.Props.C17",
         areas=[dict(area="fall", quick=4000, thorough=150000),
                dict(area="reg", quick=600, thorough=20000, classes=["admission-wrong", "unregister-wrong", "harness-panic"],
-                    mask=[(lambda x: "ok" if x == "ok" else ("err" if x.startswith("err:") else "-"), None)])],
+                    mask=[(lambda x: "ok" if x == "ok" else ("err" if x.startswith("err:") else "-"), None)]),
+               dict(area="cvec", quick=500, thorough=20000, classes=["not-linearizable", "stuck", "harness-panic"])],
         rule="case = one call of a Result-returning API under catch_unwind: histogram constructors over adversarial bucket lists, linear/exponential_buckets over every f64 class and counts 0-6, "
              "all 11 constructors over adversarial names, get_metric_with_label_values / get_metric_with / remove_label_values / remove with cardinalities 0-5 and wrong names, Registry::new_custom, "
              "TextEncoder on strings with multi-byte characters next to escaped ones, both encoders on hand-built families of every MetricType (empty name, no samples, mismatching value slots, failing writer); "
